@@ -72,7 +72,7 @@ func (c c02) Generate(seed uint64, tier string, idx int) *core.Plan {
 	if t == 3 {
 		respHop = world.KAttResp
 	}
-	if t == 5 && idx%32 == 5 {
+	if t == 5 && idx%32 == 7 {
 		// a batch large enough for a four-byte length prefix (>= 512 tokens): every bit of the prefix
 		for i := range p.Steps {
 			if p.Steps[i].Op == "sess" && p.Steps[i].A[sID] == 1 {
